@@ -2,6 +2,7 @@ package netsim
 
 import (
 	"fmt"
+	"net"
 	"path/filepath"
 	"strings"
 
@@ -17,12 +18,14 @@ import (
 // Oracle for C19: no panic, and every handler result serialises and parses back to the same options.
 type confswarm struct {
 	baseScenario
-	plugin  string
-	args    []string
-	v6      bool
-	c4      []*Client4
-	c6      []*Client6
-	started bool
+	plugin    string
+	args      []string
+	v6        bool
+	c4        []*Client4
+	c6        []*Client6
+	started   bool
+	dual      bool
+	otherFile string
 }
 
 func init() { registerScenario("confswarm", func() scenario { return &confswarm{} }) }
@@ -70,6 +73,7 @@ func (s *confswarm) drawArgs(w *World) {
 			s.args = many(argAddr4, 0, 4)
 		}
 	case "file":
+		w.Sim.FSRegisterDir(w.Dir)
 		w.Sim.FSRegisterPath(lease)
 		content := []string{"00:11:22:33:44:55 10.0.0.9\n", "00:11:22:33:44:55 2001:db8::9\n", "", "garbage\n", "# c\n\n00:00:00:00:00:01 10.7.0.1\n00:00:00:00:00:01 2001:db8:5::1\n"}[t.Pick(5)]
 		if t.Draw(5) != 0 {
@@ -225,12 +229,42 @@ func (s *confswarm) Plan(w *World) {
 	for _, p := range chain {
 		sb.WriteString("    - " + p.Name + ": " + yamlQuote(strings.Join(p.Args, " ")) + "\n")
 	}
+	if s.plugin == "file" && t.Draw(2) == 1 {
+		// the other protocol uses the file plugin too (its own, valid file): both tables live in one package
+		other := filepath.Join(w.Dir, "swarm-other.txt")
+		w.Sim.FSRegisterPath(other)
+		s.dual = true
+		if s.v6 {
+			w.Sim.FSCreate(other, []byte("00:00:00:00:00:01 10.7.0.1\n"))
+			sb.WriteString("server4:\n  listen: \"0.0.0.0:67\"\n  plugins:\n    - file: " + yamlQuote(other+" autorefresh") + "\n")
+			w.Has4 = true
+			w.Chain4 = []PluginConf{{"file", []string{other, "autorefresh"}}}
+		} else {
+			w.Sim.FSCreate(other, []byte("00:00:00:00:00:01 2001:db8:5::1\n"))
+			sb.WriteString("server6:\n  listen: \"[::]:547\"\n  plugins:\n    - file: " + yamlQuote(other+" autorefresh") + "\n")
+			w.Has6 = true
+			w.Chain6 = []PluginConf{{"file", []string{other, "autorefresh"}}}
+		}
+		s.otherFile = other
+	}
 	w.UseConfigFile = true
 	w.ConfigText = sb.String()
-	for i := 0; i < 4; i++ {
+	nclients := 4
+	if s.plugin == "range" {
+		nclients = 16 // enough distinct clients to exhaust the small ranges
+	}
+	for i := 0; i < nclients; i++ {
 		hw := drawMAC(t, 6, i+1)
+		if i == 0 {
+			hw = net.HardwareAddr{0, 0, 0, 0, 0, 1} // listed in the lease files
+		}
 		s.c4 = append(s.c4, &Client4{ID: i, MAC: hw, Link: 2, Bcast: t.Draw(2) == 1})
-		s.c6 = append(s.c6, newClient6(t, i, 2))
+		c := newClient6(t, i, 2)
+		if i == 0 {
+			c.MAC = hw
+			c.DUID = &dhcpv6.DUIDLL{HWType: 1, LinkLayerAddr: hw}
+		}
+		s.c6 = append(s.c6, c)
 	}
 	w.Sim.SetPoolReuse(int(t.Draw(3)))
 }
@@ -250,8 +284,16 @@ func (s *confswarm) OnStarted(w *World, inc int, err string) {
 	for i := 0; i < n; i++ {
 		at += int64(t.Draw(200)) * 1e6
 		i := i
+		if s.dual && i == 2 {
+			other := s.otherFile
+			w.Sim.After(at, func() { w.Sim.FSAppend(other, []byte("# touched\n")) })
+		}
 		w.Sim.After(at, func() {
-			if s.v6 {
+			v6 := s.v6
+			if s.dual && i%2 == 1 {
+				v6 = !v6
+			}
+			if v6 {
 				c := s.c6[i%len(s.c6)]
 				types := []dhcpv6.MessageType{dhcpv6.MessageTypeSolicit, dhcpv6.MessageTypeRequest, dhcpv6.MessageTypeRenew, dhcpv6.MessageTypeRebind, dhcpv6.MessageTypeInformationRequest, dhcpv6.MessageTypeRelease, dhcpv6.MessageTypeConfirm}
 				mt := types[t.Pick(len(types))]
@@ -260,7 +302,26 @@ func (s *confswarm) OnStarted(w *World, inc int, err string) {
 					m.AddOption(dhcpv6.OptRequestedOption(dhcpv6.OptionDNSRecursiveNameServer, dhcpv6.OptionDomainSearchList, dhcpv6.OptionBootfileURL, dhcpv6.OptionBootfileParam))
 				}
 				if t.Draw(2) == 1 {
-					m.AddOption(&dhcpv6.OptIAPD{IaId: [4]byte{1, 2, 3, byte(i)}})
+					pd := &dhcpv6.OptIAPD{IaId: [4]byte{1, 2, 3, byte(i)}}
+					// hints of every family and shape, aimed at whatever pool was configured
+					hints := []string{"", "::/0", "::/64", "2001:db8::/64", "2001:db8:77:10::/60", "::ffff:10.1.0.0/120", "::ffff:10.0.0.0/104", "10.1.0.0/24", "fe80::/10", "2001:db8::1/128", "::1/128"}
+					for k, n := 0, t.Range(0, 2); k < n; k++ {
+						h := hints[t.Pick(len(hints))]
+						if h == "" {
+							pd.Options.Add(&dhcpv6.OptIAPrefix{})
+							continue
+						}
+						ip, ipn, err := net.ParseCIDR(h)
+						if err != nil {
+							continue
+						}
+						ones, _ := ipn.Mask.Size()
+						if ip.To4() != nil && !strings.Contains(h, ":") {
+							ones += 96
+						}
+						pd.Options.Add(&dhcpv6.OptIAPrefix{Prefix: &net.IPNet{IP: ip.To16(), Mask: net.CIDRMask(ones, 128)}})
+					}
+					m.AddOption(pd)
 				}
 				if t.Draw(2) == 1 {
 					m.AddOption(&dhcpv6.OptIANA{IaId: [4]byte{4, 5, 6, byte(i)}})
